@@ -28,10 +28,13 @@ rm -rf nested && mkdir -p nested/a/b
 printf 'top' > nested/top.txt
 printf 'mid' > nested/a/mid.txt
 printf 'deep' > nested/a/b/deep.txt
+mkdir -p nested/twin1 nested/twin2
+printf 'same' > nested/twin1/data.txt
+printf 'same' > nested/twin2/data.txt
 printf 'plain' > plain.txt`})
 	s.Files["p/user.in"] = hist.File{Content: "u1"}
 	s.Targets = append(s.Targets, hist.Target{Pkg: "p", Name: "user", Deps: []string{":flat", ":nested"}, Inputs: []string{"user.in"}, Outputs: []string{"user.txt"}, Command: traceStart + `
-cat user.in flat/one.txt flat/two.txt flat/three.txt nested/top.txt nested/a/mid.txt nested/a/b/deep.txt plain.txt > user.txt`})
+cat user.in flat/one.txt flat/two.txt flat/three.txt nested/top.txt nested/a/mid.txt nested/a/b/deep.txt nested/twin1/data.txt nested/twin2/data.txt plain.txt > user.txt`})
 	return s
 }
 
